@@ -85,7 +85,9 @@ def c09_2(ctx):
                 if {"bech32_verify_checksum", "bech32m_verify_checksum"} <= names:
                     return BAD_FALSE
         return None
-    out = [rl.guard(ctx, spec, match, what="checksum verification precedes every return", key="verify")]
+    out = rl.defer(ctx, [rl.guard(ctx, spec, match, what="checksum verification precedes every return", key="verify")], lambda: c09_14(ctx),
+                   "decided by the bech32 cells (C09.14: single-character substitutions and the other variant's checksum constant are refused, every reference address decodes); "
+                   "the verification is not a call of the two verify functions")
     # program length 2..40
     cfg = cfg_of(fn)
     var = None
@@ -176,7 +178,8 @@ def c09_3(ctx):
             calls = {call_name(c) for c in ast.walk(fn_) if isinstance(c, ast.Call)}
             if not {"bech32_polymod", "bech32_hrp_expand"} <= calls:
                 out.append(ctx.bad("bech32:" + fn_.name, "does not compute bech32_polymod(bech32_hrp_expand(hrp) + data)", fn_, mod, key="polymod:" + fn_.name))
-    return out
+    return rl.defer(ctx, out, lambda: c09_14(ctx), "decided by the bech32 cells (C09.14: every witness version 0..16 encodes to and decodes from the BIP173 / BIP350 reference string, "
+                    "the other variant's constant is refused); the selection is not in the form this rule reads")
 
 
 def _final_const(fn, f):
@@ -603,6 +606,12 @@ def c09_9(ctx):
 
 
 def c09_10(ctx):
+    out = _c09_10_struct(ctx)
+    return rl.defer(ctx, out, lambda: c09_15(ctx), "decided by the Base58Check cells (C09.15: payloads with 0..3 leading zero bytes, zero runs in the middle and a checksum ending "
+                    "in 00 encode to the reference string and decode back); the count of leading zero bytes is not in a form this rule reads")
+
+
+def _c09_10_struct(ctx):
     """encode_base58: one leading `1` per *leading* zero byte.  The count must stop at the first non-zero byte (a loop that breaks, or
     len(s) - len(s.lstrip(b"\\x00"))); counting zero bytes anywhere else (strip on both ends, count()) adds `1`s for payloads whose
     checksum ends in 00 and the string no longer decodes to the payload"""
@@ -697,8 +706,8 @@ def c09_13(ctx):
     return shared_obligations(ctx, ["helper", "bech32", "script", "pecc", "tx"], "the result would depend on something other than the arguments and the object's current state")
 
 
-def _ref_bech32(hrp, version, prog):
-    """BIP173/BIP350 reference encoder (the rule's own)."""
+def _ref_bech32(hrp, version, prog, const=None):
+    """BIP173/BIP350 reference encoder (the rule's own); `const` forces the checksum constant (the other variant's, for refusal cells)."""
     def polymod(values):
         chk = 1
         for v in values:
@@ -717,7 +726,7 @@ def _ref_bech32(hrp, version, prog):
     if bits:
         data.append((acc << (5 - bits)) & 31)
     exp = [ord(x) >> 5 for x in hrp] + [0] + [ord(x) & 31 for x in hrp]
-    const = 1 if version == 0 else BECH32M_CONST
+    const = (1 if version == 0 else BECH32M_CONST) if const is None else const
     pm = polymod(exp + data + [0] * 6) ^ const
     return hrp + "1" + "".join(BECH32_ALPHABET[d] for d in data + [(pm >> 5 * (5 - i)) & 31 for i in range(6)])
 
@@ -773,9 +782,34 @@ def _c09_14(ctx):
                                     bad_e = "version %d program of %d bytes on %s encodes to %r, BIP173/350 gives %s" % (version, length, networks[0], e_, addr)
                             except Raised as x:
                                 bad_e = "version %d program of %d bytes on %s: the encoder raises %s" % (version, length, networks[0], x.name)
+        # corruption: the checksum detects every single-character substitution (BIP173), and each variant refuses the other's constant
+        bad_c, m = None, 0
+        for hrp, version, length in (("bc", 0, 20), ("tb", 1, 32)) if quick else (("bc", 0, 20), ("bc", 0, 32), ("bc", 1, 32), ("tb", 0, 32), ("tb", 1, 32), ("bcrt", 16, 2)):
+            prog = bytes((53 * i + 29) & 255 for i in range(length))
+            addr = _ref_bech32(hrp, version, prog)
+            sep = addr.rindex("1")
+            variants = [("with the other variant's checksum constant", _ref_bech32(hrp, version, prog, const=BECH32M_CONST if version == 0 else 1))]
+            for pos in range(sep + 1, len(addr)):
+                if quick and pos % 4 and pos < len(addr) - 6:
+                    continue
+                c = BECH32_ALPHABET.index(addr[pos])
+                for d in (1, 16):
+                    variants.append(("with character %d changed" % pos, addr[:pos] + BECH32_ALPHABET[c ^ d] + addr[pos + 1:]))
+            for what, text in variants:
+                if bad_c:
+                    break
+                m += 1
+                try:
+                    r = Evaluator(ctx.repo, max_steps=400000).call(spec_d, [text])
+                    bad_c = "the %s address %s %s is accepted (decodes to %r): the checksum does not protect the address" % (hrp, addr, what, r)
+                except Raised:
+                    pass
+        n += m
     except Undecided as u:
         return [ctx.err(spec_d, "bech32 codec not evaluable: %s" % u, fn, mod)]
     ctx.count("cells", n)
+    out.append(ctx.bad(spec_d, bad_c, fn, mod, key="bech32-cells:corruption") if bad_c else
+               ctx.ok(spec_d, "%d corrupted addresses (single-character substitutions in the data part, the other variant's checksum constant) are refused" % m, fn, mod, key="bech32-cells:corruption"))
     out.append(ctx.bad(spec_d, bad_d, fn, mod, key="bech32-cells:decode") if bad_d else
                ctx.ok(spec_d, "%d (hrp, version, length, pattern) cells: reference addresses of 2..40-byte programs decode exactly, other lengths are refused" % n, fn, mod, key="bech32-cells:decode"))
     out.append(ctx.bad(spec_e, bad_e, fn_e, mod_e, key="bech32-cells:encode") if bad_e else
@@ -784,6 +818,12 @@ def _c09_14(ctx):
 
 
 def c09_15(ctx):
+    if not hasattr(ctx, "_c09_15"):
+        ctx._c09_15 = _c09_15(ctx)
+    return ctx._c09_15
+
+
+def _c09_15(ctx):
     """Base58Check evaluated on directed payload cells -- the property's payload lengths 0..82 × shapes chosen at the byte-width boundaries of
     the big-integer conversion: leading-zero runs of 0..3, first non-zero byte 0x01 / 0x80 / 0xff, 0x01 followed by a run of zero bytes (an
     exact power of 256 after the checksum is appended is not reachable by choice, the run is), all-0xff.  encode_base58_checksum must equal
@@ -809,6 +849,13 @@ def c09_15(ctx):
             shapes = {b"\x01" + bytes(rest - 1), b"\x80" + bytes(rest - 1), b"\xff" * rest, b"\x01" + b"\xa5" * (rest - 1), bytes((91 * i + 7) & 255 or 1 for i in range(rest))} if rest else {b""}
             for sh in shapes:
                 payloads.append(bytes(zeros) + sh)
+    # payloads whose checksum ends in a zero byte (1 in 256, found by search with the standard library's hash): zero bytes at the END of the
+    # encoded bytes must not be counted as leading
+    for lead in (b"", b"\x00", b"\x00\x00"):
+        i = 0
+        while hashlib.sha256(hashlib.sha256(lead + b"\x6f" + i.to_bytes(4, "big")).digest()).digest()[3]:
+            i += 1
+        payloads.append(lead + b"\x6f" + i.to_bytes(4, "big"))
     bad_d = bad_e = None
     try:
         for pl in payloads:
